@@ -744,6 +744,7 @@ def run_java(
     t0 = time.time()
     deadline = t0 + timeout
     failures: List[str] = []
+    left_out = False
     with_constants = True
     for attempt in range(3):
         proc = run_group(javac, root, max(deadline - time.time(), 5.0))
@@ -754,7 +755,9 @@ def run_java(
         if proc.rc == 0:
             break
         output = proc.err + proc.out
-        failures.append(output[-6000:])
+        if not left_out:
+            # diagnostics after a unit was left out may be a consequence of that
+            failures.append(output[-6000:])
         # Work-arounds so that the JSON leg can go on *after* the diagnostics have been
         # recorded as a build failure (they are reported by the check either way):
         #  * a model without enumerations (or without constants): the emitted sources
@@ -782,6 +785,7 @@ def run_java(
         if created:
             pass
         elif broken and broken <= JAVA_OPTIONAL_UNITS:
+            left_out = True
             res.excluded_units.extend(sorted(broken))
             sources = [p for p in sources if os.path.basename(p) not in broken]
             with_constants = with_constants and "Constants.java" not in broken
@@ -790,6 +794,8 @@ def run_java(
                 encoding="utf-8",
             )
         else:
+            # only the diagnostics of the unchanged SDK count, not those which leaving a
+            # unit out may have caused
             res.seconds["javac"] = time.time() - t0
             res.status, res.detail = "build-failed", "\n".join(failures)[-8000:]
             return res
